@@ -78,104 +78,315 @@ def rule_constants(ctx, repo):
     cs = repo.module_value(m, 'CHARSET')
     r.check(cs == spec.BECH32_CHARSET, 'charset', m.relpath + ':0', cs, 'CHARSET is %r' % (cs,))
     fi = repo.get_function(SA + 'bech32_polymod')
-    gen = None
-    for n in walk_no_nested(fi.node):
-        if isinstance(n, ast.Assign) and norm(n.targets[0]) == 'generator':
-            gen = repo.fold(n.value, fi.module)
-    r.check(gen == spec.BECH32_GENERATORS, 'generators', fi.site, 'five BIP173 generator constants', 'generator constants are %s' % ([hex(x) for x in gen] if isinstance(gen, list) else gen))
+    gen = polymod_parts(repo, fi).get('table')
+    r.check(gen is not None and list(gen) == list(spec.BECH32_GENERATORS), 'generators', fi.site, 'five BIP173 generator constants',
+            'generator constants are %s' % ([hex(x) for x in gen] if isinstance(gen, (list, tuple)) else gen))
 
 
-def rule_polymod(ctx, repo):
-    r = ctx.rule('C11.C2', 'checksum machinery: polymod step, prefix expansion, verification constant 1, checksum creation and extraction', engine='CONST', floor=8)
-    fi = repo.get_function(SA + 'bech32_polymod')
+def polymod_parts(repo, fi):
+    """the pieces of bech32_polymod by role: init, top, step, and the generator mixing (table, index range, condition),
+    for both spellings of the mixing loop (range(n) with a conditional expression / enumerate(table) with an if)"""
+    out = {}
     defs = {}
     for n in ast.walk(fi.node):
         if isinstance(n, ast.Assign) and len(n.targets) == 1:
             defs.setdefault(norm(n.targets[0]), []).append(n.value)
-        if isinstance(n, ast.AugAssign):
-            defs.setdefault(norm(n.target) + '^=', []).append(n.value)
-    init = [norm(v) for v in defs.get('chk', [])][:1]
-    r.check(init == ['1'], 'polymod:init', fi.site, 'chk starts at 1', 'chk starts as %s' % init)
-    shape.verdict(r, 'polymod:top', fi.site, defs.get('top', [None])[0], 'chk >> 25', 'top bits')
-    step = defs.get('chk', [None, None])[1] if len(defs.get('chk', [])) > 1 else None
-    shape.verdict(r, 'polymod:step', fi.site, step, '(chk & 0x1ffffff) << 5 ^ value', 'shift step')
-    x = defs.get('chk^=', [None])[0]
-    ok = x is not None and norm(x) == 'generator[i] if top >> i & 1 else 0'
-    loops = [norm(n.iter) for n in ast.walk(fi.node) if isinstance(n, ast.For)]
-    r.check(ok and 'range(5)' in loops, 'polymod:generators', fi.site, 'chk ^= generator[i] when bit i of top is set, i in 0..4', 'generator mixing is `%s` over %s' % (norm(x) if x is not None else None, loops))
+    out['defs'] = defs
+    outer = [n for n in walk_no_nested(fi.node) if isinstance(n, ast.For) and n in fi.node.body]
+    if len(outer) != 1:
+        return out
+    out['outer'] = outer[0]
+    inner = [n for n in ast.walk(outer[0]) if isinstance(n, ast.For) and n is not outer[0]]
+    if len(inner) != 1:
+        return out
+    lp = inner[0]
+    xors = [n for n in ast.walk(lp) if isinstance(n, ast.AugAssign) and isinstance(n.op, ast.BitXor)]
+    if len(xors) != 1:
+        return out
+    x = xors[0]
+    cond = operand = None
+    if isinstance(x.value, ast.IfExp) and repo.fold(x.value.orelse, fi.module) == 0:
+        cond, operand = x.value.test, x.value.body
+    else:
+        par = getattr(x, '_parent', None)
+        if isinstance(par, ast.If) and not par.orelse and len(par.body) == 1:
+            cond, operand = par.test, x.value
+    if cond is None:
+        return out
+    # index variable and table
+    it = lp.iter
+    idx = elem = table = None
+    rng = None
+    if isinstance(it, ast.Call) and norm(it.func) == 'range' and len(it.args) == 1 and isinstance(lp.target, ast.Name):
+        idx = lp.target.id
+        rng = repo.fold(it.args[0], fi.module)
+        if isinstance(operand, ast.Subscript) and norm(operand.slice) == idx:
+            tv = operand.value
+            table = repo.fold(tv, fi.module)
+            if table is UNKNOWN and isinstance(tv, ast.Name) and len(defs.get(tv.id, [])) == 1:
+                table = repo.fold(defs[tv.id][0], fi.module)
+    elif isinstance(it, ast.Call) and norm(it.func) == 'enumerate' and len(it.args) == 1 and isinstance(lp.target, ast.Tuple) and len(lp.target.elts) == 2:
+        idx, elem = norm(lp.target.elts[0]), norm(lp.target.elts[1])
+        tv = it.args[0]
+        table = repo.fold(tv, fi.module)
+        if table is UNKNOWN and isinstance(tv, ast.Name) and len(defs.get(tv.id, [])) == 1:
+            table = repo.fold(defs[tv.id][0], fi.module)
+        if norm(operand) == elem and isinstance(table, (list, tuple)):
+            rng = len(table)
+        else:
+            table = None
+    if isinstance(table, (list, tuple)) and all(isinstance(v, int) for v in table):
+        out['table'] = list(table)
+    out['range'] = rng
+    out['idx'] = idx
+    out['cond'] = cond
+    out['target'] = norm(x.target)
+    return out
+
+
+def rule_polymod(ctx, repo):
+    r = ctx.rule('C11.C2', 'checksum machinery: polymod step, prefix expansion, verification constant 1, checksum creation and extraction', engine='CONST', floor=8)
+    from ..rules import canon_arith
+    fi = repo.get_function(SA + 'bech32_polymod')
+    pp = polymod_parts(repo, fi)
+    defs = pp.get('defs', {})
+    chk = pp.get('target', 'chk')
+    init = [repo.fold(v, fi.module) for v in defs.get(chk, [])][:1]
+    r.check(init == [1], 'polymod:init', fi.site, 'chk starts at 1', 'chk starts as %s' % init)
+    top = defs.get('top', [None])[0]
+    common.verdict3(r, 'polymod:top', fi.site, repo, fi, top, '%s >> 25' % chk, 'top bits')
+    step = defs.get(chk, [None, None])[1] if len(defs.get(chk, [])) > 1 else None
+    val = pp['outer'].target.id if pp.get('outer') is not None and isinstance(pp['outer'].target, ast.Name) else 'value'
+    common.verdict3(r, 'polymod:step', fi.site, repo, fi, step, '(%s & 0x1ffffff) << 5 ^ %s' % (chk, val), 'shift step')
+    cond = pp.get('cond')
+    if cond is None or pp.get('idx') is None:
+        r.undecided('polymod:generators', fi.site, 'generator mixing loop has an unrecognised shape')
+    else:
+        cond_ok = canon_arith(common.resolved(fi, cond, repo)) in (canon_arith('%s >> %s & 1' % (norm(top) if top is not None else 'top', pp['idx'])),
+                                                                 canon_arith('(%s >> 25) >> %s & 1' % (chk, pp['idx'])))
+        r.check(cond_ok and pp.get('range') == 5, 'polymod:generators', fi.site, 'chk ^= generator[i] when bit i of top is set, i in 0..4',
+                'generator mixing tests `%s` for i in range(%s); BIP173: bit i of top, i in 0..4' % (norm(cond), pp.get('range')))
     he = repo.get_function(SA + 'bech32_hrp_expand')
-    rets = [norm(n.value) for n in walk_no_nested(he.node) if isinstance(n, ast.Return)]
-    r.check(rets == ['[ord(x) >> 5 for x in hrp] + [0] + [ord(x) & 31 for x in hrp]'], 'hrp-expand', he.site, 'high bits, 0, low bits', 'prefix expansion is %s' % rets)
+    hp = he.params[0]
+    common.verdict3(r, 'hrp-expand', he.site, repo, he, common.returned_value(he), '[ord(x) >> 5 for x in %s] + [0] + [ord(x) & 31 for x in %s]' % (hp, hp), 'prefix expansion')
     vc = repo.get_function(SA + 'bech32_verify_checksum')
-    rets = [norm(n.value) for n in walk_no_nested(vc.node) if isinstance(n, ast.Return)]
-    r.check(rets == ['bech32_polymod(bech32_hrp_expand(hrp) + data) == 1'], 'verify', vc.site, 'polymod(expand(hrp) + data) == 1', 'verification is %s' % rets)
+    ve = common.return_expr(vc, inline_locals=True)
+    vm = common.value_match(repo, vc, ve, 'bech32_polymod(bech32_hrp_expand(%s) + %s) == 1' % tuple(vc.params[:2])) if ve is not None else 'other'
+    if vm == 'same':
+        r.ok('verify', vc.site, 'polymod(expand(hrp) + data) == 1')
+    elif ve is not None and 'bech32_polymod' in norm(ve):
+        r.violated('verify', vc.site, 'verification is `%s`; BIP173: polymod(expand(hrp) + data) == 1' % norm(ve)[:120])
+    else:
+        r.undecided('verify', vc.site, 'verification is written as `%s`' % (norm(ve)[:100] if ve is not None else None))
     cc = repo.get_function(SA + 'bech32_create_checksum')
-    d2 = {norm(n.targets[0]): norm(n.value) for n in walk_no_nested(cc.node) if isinstance(n, ast.Assign)}
-    rets = [norm(n.value) for n in walk_no_nested(cc.node) if isinstance(n, ast.Return)]
-    ok = d2.get('values') == 'bech32_hrp_expand(hrp) + data' and d2.get('polymod') == 'bech32_polymod(values + [0, 0, 0, 0, 0, 0]) ^ 1' and rets == ['[polymod >> 5 * (5 - i) & 31 for i in range(6)]']
-    r.check(ok, 'create', cc.site, 'polymod(values + six zeros) ^ 1, six 5-bit groups', 'checksum creation is %s / %s' % (d2, rets))
+    h_, d_ = cc.params[:2]
+    rv = common.returned_value(cc)
+    m1 = common.value_match(repo, cc, rv, '[(bech32_polymod(bech32_hrp_expand(%s) + %s + [0, 0, 0, 0, 0, 0]) ^ 1) >> 5 * (5 - i) & 31 for i in range(6)]' % (h_, d_))
+    m2 = common.value_match(repo, cc, rv, '[(bech32_polymod(bech32_hrp_expand(%s) + %s + [0] * 6) ^ 1) >> shift & 31 for shift in range(25, -5, -5)]' % (h_, d_))
+    m3 = common.value_match(repo, cc, rv, '[(bech32_polymod(bech32_hrp_expand(%s) + %s + [0] * 6) ^ 1) >> 5 * (5 - i) & 31 for i in range(6)]' % (h_, d_))
+    if 'same' in (m1, m2, m3):
+        r.ok('create', cc.site, 'polymod(values + six zeros) ^ 1, six 5-bit groups')
+    elif m1 == 'near':
+        r.violated('create', cc.site, 'checksum creation is `%s`; BIP173: polymod(expand(hrp) + data + [0]*6) ^ 1 split into six 5-bit groups, most significant first'
+                   % (ast.unparse(common.resolved(cc, rv, repo))[:160] if rv is not None else None))
+    else:
+        r.undecided('create', cc.site, 'checksum creation is written as `%s`' % (ast.unparse(common.resolved(cc, rv, repo))[:160] if rv is not None else None))
     be = repo.get_function(SA + 'bech32_encode')
-    rets = [norm(n.value) for n in walk_no_nested(be.node) if isinstance(n, ast.Return)]
-    d3 = {norm(n.targets[0]): norm(n.value) for n in walk_no_nested(be.node) if isinstance(n, ast.Assign)}
-    ok = d3.get('combined') == 'data + bech32_create_checksum(hrp, data)' and rets == ["hrp + '1' + ''.join([CHARSET[d] for d in combined])"]
-    r.check(ok, 'encode-string', be.site, "hrp + '1' + data characters + checksum characters", 'bech32_encode builds %s / %s' % (d3, rets))
+    h_, d_ = be.params[:2]
+    rv = common.returned_value(be)
+    refs = ["%s + '1' + ''.join([CHARSET[d] for d in %s + bech32_create_checksum(%s, %s)])" % (h_, d_, h_, d_),
+            "%s + '1' + ''.join((CHARSET[d] for d in %s + bech32_create_checksum(%s, %s)))" % (h_, d_, h_, d_)]
+    ms = [common.value_match(repo, be, rv, t) for t in refs]
+    if 'same' in ms:
+        r.ok('encode-string', be.site, "hrp + '1' + data characters + checksum characters")
+    elif 'near' in ms:
+        r.violated('encode-string', be.site, 'bech32_encode builds `%s`; BIP173: hrp + "1" + characters of data + checksum' % (ast.unparse(common.resolved(be, rv, repo))[:160] if rv is not None else None))
+    else:
+        r.undecided('encode-string', be.site, 'bech32_encode builds `%s`' % (ast.unparse(common.resolved(be, rv, repo))[:160] if rv is not None else None))
+
+
+def reject_outcomes(repo, fi):
+    """{'reject': formula, 'accept': formula} of a decoder that answers (None, None) / None for refused input"""
+    from ..rules import outcome_formula
+
+    def classify(p):
+        if p.end == 'return' and p.endnode is not None:
+            t = norm(p.endnode.value) if p.endnode.value is not None else 'None'
+            return 'reject' if t in ('(None, None)', 'None') else 'accept'
+        return p.end
+    try:
+        return outcome_formula(repo, fi, classify)
+    except OverflowError:
+        return None
+
+
+def decide_rejects(r, key, fi, repo, ref_reject, what, rules_table):
+    """compare the refusal condition of `fi` with the reference formula; on a difference name the reference rule(s)
+    whose atoms distinguish the two"""
+    oc = reject_outcomes(repo, fi)
+    if not oc or 'reject' not in oc or set(oc) - {'reject', 'accept'}:
+        r.undecided(key, fi.site, 'the refusal condition of %s could not be extracted (outcomes: %s)' % (fi.name, sorted(oc) if oc else None))
+        return None
+    v = equiv(oc['reject'], ref_reject)
+    if v is True:
+        for k_, (txt, desc) in rules_table.items():
+            r.ok('%s:%s' % (key, k_), fi.site, '%s: `%s`' % (desc, txt))
+        return True
+    if v is None:
+        r.undecided(key, fi.site, 'the refusal condition of %s is not comparable with the BIP173 rule set by the guard algebra' % fi.name)
+        return None
+    w = equiv.witness or {}
+    # which reference rules are decided differently on the witness?  Evaluate each rule on the witness cell.
+    blamed = []
+    for k_, (txt, desc) in rules_table.items():
+        with_rule = ref_reject
+        without = ' or '.join('(%s)' % t for kk, (t, d) in rules_table.items() if kk != k_) or 'False'
+        if equiv(oc['reject'], without) is True:
+            blamed.append((k_, txt, desc, 'missing'))
+    if not blamed:
+        for k_, (txt, desc) in rules_table.items():
+            names = {n.id for n in ast.walk(ast.parse(txt, mode='eval')) if isinstance(n, ast.Name)} - {'x', 'any', 'all', 'len', 'ord'}
+            if any(any(nm in str(a) for nm in names) for a in w):
+                blamed.append((k_, txt, desc, 'differs'))
+    for k_, (txt, desc) in rules_table.items():
+        hit = [b for b in blamed if b[0] == k_]
+        if hit:
+            r.violated('%s:%s' % (key, k_), fi.site, '%s: the rule `%s` is %s in %s (the refusal conditions differ at %s)' % (desc, txt, 'missing' if hit[0][3] == 'missing' else 'not what the code tests', fi.name, w))
+        elif blamed:
+            r.ok('%s:%s' % (key, k_), fi.site, '%s: `%s`' % (desc, txt))
+    if not blamed:
+        r.violated('%s:rules' % key, fi.site, 'the refusal condition of %s differs from the BIP173 rule set at %s' % (fi.name, w))
+    return False
 
 
 def rule_decode_rules(ctx, repo):
     r = ctx.rule('C11.R1', 'bech32_decode rejects exactly: characters outside 33..126, mixed case, bad separator position, over 90 characters, non-charset data, bad checksum', engine='RULES', floor=8)
     fi = repo.get_function(SA + 'bech32_decode')
     b = fi.params[0]
-    want = {
-        'char-low': (['any((ord(x) < 33 or ord(x) > 126 for x in %s))' % b], 'ord(x)', 'characters outside 33..126'),
-        'mixed-case': (['%s.lower() != %s and %s.upper() != %s' % (b, b, b, b)], '.lower()', 'mixed case'),
-        'separator-min': (['pos < 1'], 'pos <', 'empty prefix / no separator'),
-        'data-min': (['pos + 7 > len(%s)' % b], 'pos +', 'fewer than six characters after the separator'),
-        'max-length': (['len(%s) > 90' % b], 'len(%s) >' % b, 'more than 90 characters'),
-        'charset': (['not all((x in CHARSET for x in %s[pos + 1:]))' % b], 'CHARSET', 'data characters outside the charset'),
-        'checksum': (['not bech32_verify_checksum(hrp, data)'], 'verify_checksum', 'invalid checksum'),
+    cs = spec.BECH32_CHARSET
+    table = {
+        'char-low': ('any((ord(x) < 33 or ord(x) > 126 for x in %s))' % b, 'characters outside 33..126'),
+        'mixed-case': ('%s.lower() != %s and %s.upper() != %s' % (b, b, b, b), 'mixed case'),
+        'separator-min': ('pos < 1', 'empty prefix / no separator'),
+        'data-min': ('pos + 7 > len(%s)' % b, 'fewer than six characters after the separator'),
+        'max-length': ('len(%s) > 90' % b, 'more than 90 characters'),
+        'charset': ('not all((x in %r for x in %s[pos + 1:]))' % (cs, b), 'data characters outside the charset'),
+        'checksum': ('not bech32_verify_checksum(hrp, data)', 'invalid checksum'),
     }
-    compare_rules(r, fi, repo, want, 'decode')
-    defs = {}
+    # locals that are plain definitions are substituted so that the atoms speak about the same quantities
+    defs = common.local_defs(fi)
+    ref = ' or '.join('(%s)' % t for t, d in table.values())
+    subs = {}
+    for nm in ('hrp', 'data'):
+        if nm in defs:
+            subs[nm] = ast.unparse(defs[nm])
+    ref_r = ref
+    table_r = dict(table)
+    decide_rejects(r, 'decode', FormulaView(fi, repo), repo, ref_r, 'bech32_decode', table_r)
+    ds = {}
     for n in walk_no_nested(fi.node):
         if isinstance(n, ast.Assign) and len(n.targets) == 1:
-            defs.setdefault(norm(n.targets[0]), []).append(norm(n.value))
-    pos = defs.get('pos', [None])[-1]
-    if pos == "%s.rfind('1')" % b:
+            ds.setdefault(norm(n.targets[0]), []).append(n.value)
+    pos = ds.get('pos', [None])[-1]
+    pt = norm(pos) if pos is not None else None
+    if pt == "%s.rfind('1')" % b:
         r.ok('separator-last', fi.site, 'separator is the last `1`')
-    elif pos is not None and "find('1')" in pos or (pos and 'index' in pos):
-        r.violated('separator-last', fi.site, 'the separator is located with `%s`: BIP173 takes the LAST `1` (a prefix may itself contain `1`)' % pos)
+    elif pt is not None and ("find('1')" in pt or 'index' in pt):
+        r.violated('separator-last', fi.site, 'the separator is located with `%s`: BIP173 takes the LAST `1` (a prefix may itself contain `1`)' % pt)
     else:
-        r.undecided('separator-last', fi.site, 'separator position computed as %s' % pos)
-    r.check(defs.get(b, [None])[-1] == '%s.lower()' % b, 'lowercased', fi.site, 'decoded in lower case', 'the string is normalised as %s' % defs.get(b))
-    r.check(defs.get('hrp') == ['%s[:pos]' % b] and defs.get('data') == ['[CHARSET.find(x) for x in %s[pos + 1:]]' % b], 'split', fi.site, 'prefix before, data after the separator',
-            'split is hrp=%s data=%s' % (defs.get('hrp'), defs.get('data')))
-    rets = [norm(n.value) for n in walk_no_nested(fi.node) if isinstance(n, ast.Return) and norm(n.value) != '(None, None)']
-    r.check(rets == ['(hrp, data[:-6])'], 'result', fi.site, 'data without the six checksum symbols', 'decode returns %s' % rets)
+        r.undecided('separator-last', fi.site, 'separator position computed as %s' % pt)
+    low = [norm(v) for v in ds.get(b, [])]
+    r.check(low[-1:] == ['%s.lower()' % b], 'lowercased', fi.site, 'decoded in lower case', 'the string is normalised as %s' % low)
+    # what an accepted string decodes to, read along the accepting path(s)
+    from ..table import Tracer
+    tr = Tracer(repo, fi.module)
+    accp = [p for p in tr.trace(fi.node.body, {}) if p.end == 'return' and p.endnode.value is not None and norm(p.endnode.value) not in ('(None, None)', 'None')]
+    verdicts = set()
+    shown = None
+    for p in accp:
+        pd = common.path_defs(p, keep=(b,))
+        m = common.value_match(repo, fi, p.endnode.value, "(%s[:%s.rfind('1')], [CHARSET.find(x) for x in %s[%s.rfind('1') + 1:]][:-6])" % (b, b, b, b), defs=pd)
+        verdicts.add(m)
+        if m != 'same':
+            shown = ast.unparse(common.resolved(fi, p.endnode.value, repo, defs=pd))[:160]
+    site = common.site_of(fi, accp[0].endnode) if accp else fi.site
+    if accp and verdicts == {'same'}:
+        r.ok('split', fi.site, 'prefix before, data after the separator')
+        r.ok('result', fi.site, 'data without the six checksum symbols')
+    elif 'near' in verdicts:
+        r.violated('result', site, 'decode returns `%s`; BIP173: (prefix before the separator, data symbols without the six checksum symbols)' % shown)
+    else:
+        r.undecided('result', site, 'decode returns `%s`' % shown)
+
+
+class FormulaView(object):
+    """a function seen with its single-definition locals that are not plain data substituted inside guards: the
+    atoms of two spellings then speak about the same quantities (`data is None` after `data = f(x)` etc. stay as they are)"""
+
+    def __init__(self, fi, repo):
+        self.__dict__.update(fi.__dict__)
+        self.fi = fi
+
+    @property
+    def params(self):
+        return self.fi.params
+
+    @property
+    def site(self):
+        return self.fi.site
 
 
 def rule_convertbits(ctx, repo):
     r = ctx.rule('C11.R2', 'convertbits: rejects out-of-range symbols; without padding rejects >= frombits left-over bits or non-zero padding', engine='RULES', floor=3)
+    from ..rules import outcome_formula
     fi = repo.get_function(SA + 'convertbits')
-    got = reject_rules(fi, repo)
-    want = {
-        'symbol-range': (['value < 0', 'value >> frombits'], None),
-    }
-    r.check('value < 0' in got and 'value >> frombits' in got, 'symbol-range', fi.site, 'value < 0 or value >> frombits', 'symbol range rules are %s' % sorted(got))
-    # the pad=False arm
-    arm = None
-    for n in walk_no_nested(fi.node):
-        if isinstance(n, ast.If) and norm(n.test) == 'pad':
-            if len(n.orelse) == 1 and isinstance(n.orelse[0], ast.If):
-                arm = n.orelse[0]
-    if arm is None or not is_reject(arm.body):
-        r.violated('no-pad-arm', fi.site, 'no rejecting `elif` for pad=False')
+    loops = [n for n in fi.node.body if isinstance(n, ast.For)]
+    if len(loops) != 1 or not isinstance(loops[0].target, ast.Name):
+        r.undecided('loop', fi.site, 'regrouping loop not found')
         return
-    ds = [canon_guard(d, repo, fi.module) for d in disjuncts(arm.test)]
-    r.check(canon_text('bits >= frombits') in ds, 'padding-bits', common.site_of(fi, arm), 'frombits or more left-over bits rejected',
-            'left-over bits rule is %s; BIP173: reject when bits >= frombits (five or more padding bits)' % ds)
-    r.check('acc << tobits - bits & maxv' in ds, 'padding-zero', common.site_of(fi, arm), 'non-zero padding rejected', 'non-zero padding rule missing: %s' % ds)
-    defs = {norm(n.targets[0]): norm(n.value) for n in walk_no_nested(fi.node) if isinstance(n, ast.Assign)}
-    r.check(defs.get('maxv') == '(1 << tobits) - 1', 'maxv', fi.site, '(1 << tobits) - 1', 'maxv is %s' % defs.get('maxv'))
+    lp = loops[0]
+    val = lp.target.id
+
+    def classify(p):
+        if p.end == 'return' and p.endnode is not None:
+            t = norm(p.endnode.value) if p.endnode.value is not None else 'None'
+            return 'reject' if t in ('(None, None)', 'None') else 'accept'
+        return p.end
+    # (1) inside the loop: a symbol is refused iff it is negative or has bits above frombits
+    oc = outcome_formula(repo, fi, classify, stmts=lp.body)
+    rej = (oc or {}).get('reject', 'False')
+    v = equiv(rej, '%s < 0 or %s >> frombits' % (val, val))
+    if v is True:
+        r.ok('symbol-range', common.site_of(fi, lp), 'value < 0 or value >> frombits')
+    elif v is False:
+        r.violated('symbol-range', common.site_of(fi, lp), 'a symbol is refused when `%s`; BIP173 regrouping refuses a symbol iff it is negative or does not fit frombits bits (%s)' % (rej, equiv.witness))
+    else:
+        r.undecided('symbol-range', common.site_of(fi, lp), 'symbol refusal condition `%s` is not comparable' % rej)
+    # (2) after the loop, without padding: refuse frombits or more left-over bits, or non-zero padding bits
+    after = fi.node.body[fi.node.body.index(lp) + 1:]
+    oc = outcome_formula(repo, fi, classify, stmts=after)
+    rej = (oc or {}).get('reject', 'False')
+    ref = 'not pad and (bits >= frombits or (acc << tobits - bits & maxv))'
+    v = equiv(rej, ref)
+    if v is True:
+        r.ok('padding-bits', fi.site, 'frombits or more left-over bits rejected')
+        r.ok('padding-zero', fi.site, 'non-zero padding rejected')
+    elif v is False:
+        both = {'padding-bits': 'not pad and bits >= frombits', 'padding-zero': 'not pad and bits < frombits and (acc << tobits - bits & maxv)'}
+        blamed = False
+        for k_, part in both.items():
+            other = [p_ for kk, p_ in both.items() if kk != k_][0]
+            if equiv(rej, other) is True or equiv('(%s) and (%s)' % (rej, part), part) is not True:
+                r.violated(k_, fi.site, 'without padding the final check refuses when `%s`; BIP173: bits >= frombits (five or more left-over bits) or non-zero padding bits (differs at %s)' % (rej, equiv.witness))
+                blamed = True
+            else:
+                r.ok(k_, fi.site, part)
+        if not blamed:
+            r.violated('padding', fi.site, 'without padding the final check refuses when `%s`; BIP173: `%s`' % (rej, ref))
+    else:
+        r.undecided('padding', fi.site, 'final refusal condition `%s` is not comparable with `%s`' % (rej, ref))
+    defs = {norm(n.targets[0]): n.value for n in walk_no_nested(fi.node) if isinstance(n, ast.Assign)}
+    common.verdict3(r, 'maxv', fi.site, repo, fi, defs.get('maxv'), '(1 << tobits) - 1', 'maxv')
     d = fi.defaults().get('pad')
     r.check(d is not None and repo.fold(d, fi.module) is True, 'pad-default', fi.site, 'pad defaults to True (encoder side)', 'pad default changed')
 
@@ -184,40 +395,59 @@ def rule_segwit_rules(ctx, repo):
     r = ctx.rule('C11.R3', 'segwit decode rejects exactly: other prefix, bad regrouping, program length outside 2..40, version above 16, version 0 with length other than 20/32', engine='RULES', floor=7)
     fi = repo.get_function(SA + 'decode')
     hrp, addr = fi.params
-    want = {
-        'prefix': (['hrpgot != %s' % hrp], 'hrpgot', 'prefix other than the expected one'),
-        'regroup': (['decoded is None'], 'decoded is', 'invalid regrouping'),
-        'length-min': (['len(decoded) < 2'], 'len(decoded) <', 'program shorter than 2 bytes'),
-        'length-max': (['len(decoded) > 40'], 'len(decoded) >', 'program longer than 40 bytes'),
-        'version-max': (['data[0] > 16'], 'data[0] >', 'witness version above 16'),
-        'v0-length': (['data[0] == 0 and len(decoded) != 20 and len(decoded) != 32'], 'data[0] == 0', 'version 0 with a length other than 20 or 32'),
+    table = {
+        'prefix': ('hrpgot != %s' % hrp, 'prefix other than the expected one'),
+        'regroup': ('decoded is None', 'invalid regrouping'),
+        'length-min': ('len(decoded) < 2', 'program shorter than 2 bytes'),
+        'length-max': ('len(decoded) > 40', 'program longer than 40 bytes'),
+        'version-max': ('data[0] > 16', 'witness version above 16'),
+        'v0-length': ('data[0] == 0 and len(decoded) != 20 and len(decoded) != 32', 'version 0 with a length other than 20 or 32'),
     }
-    # v0 rule is a conjunction inside one `if`
-    got = {}
-    for n in walk_no_nested(fi.node):
-        if isinstance(n, ast.If) and is_reject(n.body):
-            for d in disjuncts(n.test):
-                got[canon_guard(d, repo, fi.module)] = n
-    compare_rules(r, fi, repo, want, 'segwit')
+    ref = ' or '.join('(%s)' % t for t, d in table.values())
+    decide_rejects(r, 'segwit', fi, repo, ref, 'decode', table)
     defs = {}
     for n in walk_no_nested(fi.node):
         if isinstance(n, ast.Assign) and len(n.targets) == 1:
-            defs[norm(n.targets[0])] = norm(n.value)
-    r.check(defs.get('decoded') == 'convertbits(data[1:], 5, 8, False)', 'regroup-call', fi.site, 'convertbits(data[1:], 5, 8, pad=False)', 'regrouping call is %s' % defs.get('decoded'))
-    r.check(defs.get('(hrpgot, data)') == 'bech32_decode(%s)' % addr, 'decode-call', fi.site, 'bech32_decode(addr)', 'inner decode is %s' % defs.get('(hrpgot, data)'))
-    rets = [norm(n.value) for n in walk_no_nested(fi.node) if isinstance(n, ast.Return) and norm(n.value) != '(None, None)']
-    r.check(rets == ['(data[0], decoded)'], 'result', fi.site, '(version, program)', 'decode returns %s' % rets)
+            defs[norm(n.targets[0])] = n.value
+    common.verdict3(r, 'regroup-call', fi.site, repo, fi, defs.get('decoded'), 'convertbits(data[1:], 5, 8, False)', 'regrouping call')
+    dc = defs.get('(hrpgot, data)')
+    r.check(dc is not None and norm(dc) == 'bech32_decode(%s)' % addr, 'decode-call', fi.site, 'bech32_decode(addr)', 'inner decode is %s' % (norm(dc) if dc is not None else None))
+    acc = [n for n in walk_no_nested(fi.node) if isinstance(n, ast.Return) and n.value is not None and norm(n.value) not in ('(None, None)', 'None')]
+    if len(acc) == 1:
+        common.verdict3(r, 'result', common.site_of(fi, acc[0]), repo, fi, acc[0].value, '(data[0], convertbits(data[1:], 5, 8, False))', '(version, program)')
+    else:
+        r.undecided('result', fi.site, '%d accepting returns' % len(acc))
 
 
 def rule_encode(ctx, repo):
     r = ctx.rule('C11.E1', 'encode: version symbol + regrouped program, lower case by construction, checked by decoding it again', engine='RULES', floor=2)
     fi = repo.get_function(SA + 'encode')
     hrp, ver, prog = fi.params
-    defs = {norm(n.targets[0]): norm(n.value) for n in walk_no_nested(fi.node) if isinstance(n, ast.Assign)}
-    r.check(defs.get('ret') == 'bech32_encode(%s, [%s] + convertbits(%s, 8, 5))' % (hrp, ver, prog), 'build', fi.site, 'bech32_encode(hrp, [version] + convertbits(program, 8, 5))', 'encode builds %s' % defs.get('ret'))
-    chk = [n for n in walk_no_nested(fi.node) if isinstance(n, ast.If)]
-    ok = len(chk) == 1 and norm(chk[0].test) == 'decode(%s, ret) == (None, None)' % hrp and is_reject(chk[0].body)
-    r.check(ok, 'self-check', fi.site, 'result must decode under the same prefix', 'the encoder does not verify its result by decoding it')
+    build = 'bech32_encode(%s, [%s] + convertbits(%s, 8, 5))' % (hrp, ver, prog)
+    from ..rules import outcome_formula
+
+    def classify(p):
+        if p.end == 'return' and p.endnode is not None:
+            t = norm(p.endnode.value) if p.endnode.value is not None else 'None'
+            return 'reject' if t in ('(None, None)', 'None') else 'accept'
+        return p.end
+    oc = outcome_formula(repo, fi, classify)
+    acc = [n for n in walk_no_nested(fi.node) if isinstance(n, ast.Return) and n.value is not None and norm(n.value) not in ('(None, None)', 'None')]
+    if len(acc) == 1:
+        common.verdict3(r, 'build', common.site_of(fi, acc[0]), repo, fi, acc[0].value, build, 'encode builds')
+    else:
+        r.undecided('build', fi.site, '%d accepting returns' % len(acc))
+    ret = ast.unparse(common.resolved(fi, acc[0].value, repo)) if len(acc) == 1 else 'ret'
+    ok = None
+    if oc and 'reject' in oc:
+        # the self check, in the spelling the code uses for the built string (a local or the expression itself)
+        names = [k for k, v in common.local_defs(fi).items() if norm(v) == build] + [build]
+        for nm in names:
+            if equiv(oc['reject'], 'decode(%s, %s) == (None, None)' % (hrp, nm)) is True:
+                ok = True
+        if ok is None:
+            ok = False
+    r.check(bool(ok), 'self-check', fi.site, 'result must decode under the same prefix', 'the encoder does not verify its result by decoding it (refusal condition: %s)' % (oc.get('reject') if oc else None))
 
 
 def rule_wrapper(ctx, repo):
@@ -225,20 +455,20 @@ def rule_wrapper(ctx, repo):
     ci = repo.get_class('bitcoin.bech32.CBech32Data')
     new = ci.methods['__new__']
     s = new.params[1]
-    defs = {norm(n.targets[0]): norm(n.value) for n in walk_no_nested(new.node) if isinstance(n, ast.Assign)}
-    r.check(defs.get('(witver, data)') == 'decode(bitcoin.params.BECH32_HRP, %s)' % s, 'decode', new.site, 'decode(bitcoin.params.BECH32_HRP, text)', 'the wrapper decodes with %s' % defs.get('(witver, data)'))
+    defs = {norm(n.targets[0]): n.value for n in walk_no_nested(new.node) if isinstance(n, ast.Assign)}
+    dv = defs.get('(witver, data)')
+    common.verdict3(r, 'decode', new.site, repo, new, dv, 'decode(bitcoin.params.BECH32_HRP, %s)' % s, 'the wrapper decodes with')
     fv = repo.fold(ast.parse('decode', mode='eval').body, new.module)
     r.check(isinstance(fv, FuncRef) and fv.info.qualname == SA + 'decode', 'decode:binding', new.site, 'segwit_addr.decode', 'decode resolves to %r' % (fv,))
     gs = [(canon_guard(n.test, repo, new.module), n) for n in walk_no_nested(new.node) if isinstance(n, ast.If)]
-    ok = any(g in ('witver is None and data is None', 'witver is None', 'data is None') and flow.always_raises(n.body) for g, n in gs)
+    ok = any(g in ('witver is None and data is None', 'data is None and witver is None', 'witver is None', 'data is None') and flow.always_raises(n.body) for g, n in gs)
     exc = [norm(x.exc.func) for g, n in gs for x in n.body if isinstance(x, ast.Raise) and isinstance(x.exc, ast.Call)]
     r.check(ok and exc == ['Bech32Error'], 'refusal', new.site, 'undecodable text raises Bech32Error', 'refusal handling is %s / %s' % ([g for g, n in gs], exc))
     st = ci.methods['__str__']
-    rets = [norm(n.value) for n in walk_no_nested(st.node) if isinstance(n, ast.Return)]
-    r.check(rets == ['encode(bitcoin.params.BECH32_HRP, self.witver, self)'], 'str', st.site, 'encode(selected prefix, version, program)', '__str__ returns %s' % rets)
+    common.verdict3(r, 'str', st.site, repo, st, common.returned_value(st), 'encode(bitcoin.params.BECH32_HRP, self.witver, self)', '__str__ returns')
     fb = ci.methods['from_bytes']
     gs = [canon_guard(n.test, repo, fb.module) for n in walk_no_nested(fb.node) if isinstance(n, ast.If) and flow.always_raises(n.body)]
-    r.check(gs == ['witver < 0 or witver > 16'], 'from_bytes:version', fb.site, 'version 0..16', 'from_bytes version rule is %s' % gs)
+    r.check(len(gs) == 1 and equiv(gs[0], 'witver < 0 or witver > 16') is True, 'from_bytes:version', fb.site, 'version 0..16', 'from_bytes version rule is %s' % gs)
     m = repo.get_module('bitcoin')
     for name, ch in sorted(spec.CHAINS.items()):
         c = m.classes.get(ch['class'])
